@@ -378,9 +378,9 @@ namespace c11
       if(cm == 2) { double b0 = gen_real(t, 3), st = gen_real(t, 2); for(Index i = 0; i < nv; ++i) for(int k = 0; k < dim; ++k) vs[i][k] = (nv <= 80) ? gen_real(t, vcls) : b0 + st * double(i * 3 + Index(k)); }
       x.node = RootMeshNode<M>::make_unique(std::move(mesh), x.atlas.get());
     }
-    // generated meshes refined once by feat3's refinery (new numbering of the re-numbered complexes); done before parts are
-    // attached because refining arbitrary entity subsets is C10's subject, not this property's
-    if(!from_file && !o.small && x.node->get_mesh() && x.node->get_mesh()->get_num_entities(dim) <= 70 && t.flag(1, 5)) { auto fine = x.node->refine_unique(AdaptMode::none); x.node = std::move(fine); d.set("refined", true); c.label("refined"); }
+    // (generated meshes are not refined here: refining a mesh that was rebuilt by deduct_topology_from_top() is C10's subject -
+    //  a probe showed the refined 2-tetra complex to be inconsistent, reported to the C10 worker - and the unit-cube factory
+    //  already goes through the refinery for level >= 1)
     const M* m = x.node->get_mesh();
     // charts
     int nch = from_file ? t.pick({3, 1}) : (m ? t.pick({2, 2, 1, 1}) : 1 + t.pick({2, 2, 1}));
@@ -594,7 +594,7 @@ namespace c11
           std::string blk = w.substr(sk.lines[(size_t)i].beg, sk.lines[e].end + 1 - sk.lines[(size_t)i].beg); f.text = w.substr(0, sk.lines[(size_t)i].beg) + blk + w.substr(sk.lines[(size_t)i].beg); f.ok = true; f.kind = "tag:duplicate-" + sk.lines[(size_t)i].name; }
         else { int i = pick_line([&](const SLine& l) { return l.markup && !l.term && !l.ctx.empty() && (l.name == "Vertices" || l.name == "Topology" || l.name == "Mapping" || l.name == "Points"); }); if(i < 0) break; size_t e = close_of(sk, (size_t)i);
           if(sk.lines[(size_t)i].name == "Mapping" && sk.lines[(size_t)i + 1].markup) break;
-          if(sk.lines[(size_t)i].name == "Points" && c.excl("c11-bezier-missing-points")) break;   // class of that finding: Bezier without its Points block
+          if(sk.lines[(size_t)i].name == "Points" && c.excl("c11-bezier-points-count")) break;   // class of that finding: Bezier without its Points block
           f.text = drop_lines(w, sk, (size_t)i, e); f.ok = true; f.kind = "tag:drop-block"; f.detail = sk.lines[(size_t)i].name; }
         break; }
       case 6: {   // syntax of a markup line
